@@ -6,6 +6,8 @@ import (
 	"go/constant"
 	"go/token"
 	"go/types"
+	"os"
+	"sort"
 	"strconv"
 	"strings"
 
@@ -296,7 +298,7 @@ func (fr *Frame) ignoredCall(sig *types.Signature, key string, c *blockCtx, ins 
 		}
 	}
 	fire := func(when string, res []Term) {
-		fr.anchor(when+" call "+site, c, res)
+		fr.anchorBoth(when, site, ins, c, res)
 		if fr.contract == nil {
 			return
 		}
@@ -480,13 +482,13 @@ func (fr *Frame) inline(fn *ssa.Function, bindings []Term, args []Term, c *block
 	fr.callOrd["call:"+funcKey(fn)]++
 	site := fmt.Sprintf("%s#%d", lastName(funcKey(fn)), fr.callOrd["call:"+funcKey(fn)]-1)
 	fr.anchorArgs = args
-	fr.anchor("before call "+site, c, nil)
+	fr.anchorBoth("before", site, ins, c, nil)
 	fr.anchorArgs = nil
 	exit, res, rr := sub.execBody(c.st, c.reach)
 	g.sc.Comment("<<< end inline %s", funcKey(fn))
 	c.st = exit
 	c.reach = rr
-	fr.anchor("after call "+site, c, res)
+	fr.anchorBoth("after", site, ins, c, res)
 	// deferred calls registered inside are run by the callee's own RunDefers
 	return res
 }
@@ -542,7 +544,7 @@ func (fr *Frame) applyContract(fc *FuncContract, key string, sig *types.Signatur
 	env.freshFloor = floor
 	// fire anchored asserts "before call"
 	fr.anchorArgs = args
-	fr.anchor("before call "+site, c, nil)
+	fr.anchorBoth("before", site, ins, c, nil)
 	fr.anchorArgs = nil
 	for i, rq := range fc.Requires {
 		label := rq.Label
@@ -620,7 +622,7 @@ func (fr *Frame) applyContract(fc *FuncContract, key string, sig *types.Signatur
 	if (fc.Extern || fc.AssumeOnly) && g.dry == 0 {
 		g.obls = append(g.obls, &Obligation{Name: fr.oname("cover@"+site, "after"), Kind: "cover", Func: g.fnName, Prefix: g.sc.Len(), Reach: c.reach, Goal: "true", Cover: true})
 	}
-	fr.anchor("after call "+site, c, res)
+	fr.anchorBoth("after", site, ins, c, res)
 	return res
 }
 
@@ -646,6 +648,67 @@ func mentionsResult(loc Expr, fc *FuncContract, sig *types.Signature) bool {
 		}
 	}
 	return false
+}
+
+// srcSite names a call site by source order: "Name@k" is the k-th call (by position in the source text) of a callee
+// called Name in the function under verification. Unlike "Name#k", which follows the order in which the engine
+// visits the blocks, it does not change when control flow elsewhere in the function is restructured.
+func (fr *Frame) srcSite(ins ssa.Instruction, name string) string {
+	if ins == nil || fr.contract == nil {
+		return ""
+	}
+	if fr.srcOrd == nil {
+		fr.srcOrd = map[ssa.Instruction]string{}
+		type cs struct {
+			ins ssa.Instruction
+			pos token.Pos
+		}
+		by := map[string][]cs{}
+		for _, b := range fr.fn.Blocks {
+			for _, in := range b.Instrs {
+				ci, ok := in.(ssa.CallInstruction)
+				if !ok {
+					continue
+				}
+				n := ""
+				if ci.Common().IsInvoke() {
+					n = ci.Common().Method.Name()
+				} else if f := ci.Common().StaticCallee(); f != nil {
+					n = lastName(funcKey(f))
+				} else if bi, ok := ci.Common().Value.(*ssa.Builtin); ok {
+					n = bi.Name()
+				} else {
+					continue
+				}
+				by[n] = append(by[n], cs{in, in.Pos()})
+			}
+		}
+		for n, l := range by {
+			sort.SliceStable(l, func(i, j int) bool { return l[i].pos < l[j].pos })
+			for i, x := range l {
+				fr.srcOrd[x.ins] = fmt.Sprintf("%s@%d", n, i)
+			}
+		}
+	}
+	s := fr.srcOrd[ins]
+	if s == "" || !strings.HasPrefix(s, name+"@") {
+		return ""
+	}
+	return s
+}
+
+// anchorBoth fires the clauses anchored on the engine-order name of a call site and those anchored on its
+// source-order name.
+func (fr *Frame) anchorBoth(when, site string, ins ssa.Instruction, c *blockCtx, results []Term) {
+	fr.anchor(when+" call "+site, c, results)
+	if i := strings.LastIndex(site, "#"); i > 0 {
+		if s2 := fr.srcSite(ins, site[:i]); s2 != "" {
+			if os.Getenv("GOWP_ANCHOR_MAP") != "" && when == "before" && fr.g.dry == 0 {
+				fmt.Fprintf(os.Stderr, "ANCHOR %s %s = %s\n", funcKey(fr.fn), site, s2)
+			}
+			fr.anchor(when+" call "+s2, c, results)
+		}
+	}
 }
 
 // anchor fires "assert/assume ... at <anchor>" clauses of the function under verification.
